@@ -24,7 +24,7 @@ func init() {
 		Rule:        "(a) the seat-manager BFS of C04 with a per-seat counter of consecutive hands missed, checking the waiting flag at every seating, that a dealt-in player with chips is never made to wait, and at most three missed hands; (b) multi-hand table histories per seat layout with arrivals (joined / sitting out) before and after the first hand and at the first wager request, busts (all-in lines with deck choice), re-buys and departures, all histories with at most `bound` non-default picks: at every open the dealt-in set must equal seated-in & chips & not-waiting (seat manager's flag), table and seat manager must agree, at least two are dealt in, a dealt-in player with chips who stays is dealt into the next hand, nobody eligible misses more than three hands",
 		Assumptions: []string{"stacks 3..12; blinds 1/2", "the waiting flag is read from the seat manager through the build-tagged accessor"},
 		Suites: func(tier string) []*Suite {
-			bound, hands := 2, 4
+			bound, hands := 2, 3
 			if tier == "thorough" {
 				bound, hands = 3, 6
 			}
